@@ -251,6 +251,13 @@ func TestC11XImage(t *testing.T) {
 			s.glyphs = append(s.glyphs, m)
 			glyphLabels(labels, m)
 		}
+		if rapid.IntRange(0, 7).Draw(t, "fitBoundary") == 0 {
+			target := rapid.SampledFrom(boundaryTotals).Draw(t, "targetTotal")
+			if fitBoundary(s, target, rapid.Bool().Draw(t, "fillerOdd"), rapid.Byte().Draw(t, "fillerSeed")) {
+				labels.add(fmt.Sprintf("boundary-total:%d", target))
+				n = len(s.glyphs)
+			}
+		}
 		set := s.glyphs
 		gs := make(glyf.Glyphs, n)
 		for i, m := range set {
